@@ -117,7 +117,8 @@ def make_frame(rng, info=None, dst_len=None, src_len=None, fmt=0xA, seg=0, ctl=N
     src = addr(rng, src_len or rng.choice([1, 1, 2, 4]))
     ctl = rng.randrange(256) if ctl is None else ctl
     if info is None:
-        n = rng.choice([0, 0, 1, 2, 5, 12, 40, 130])
+        # (total length passes 255 - the second length octet - from 245 on; 2030 is close to the 11-bit maximum)
+        n = rng.choice([0, 0, 1, 2, 5, 12, 40, 130]) if rng.random() < 0.94 else rng.choice([245, 245, 300, 300, 900, 2030])
         alpha = rng.choice([None, [FLAG, ESC, 0x5E, 0x5D, 0x20]])
         info = bytes(rng.choice(alpha) if alpha else rng.randrange(256) for _ in range(n))
     hdr_len = 2 + len(dst) + len(src) + 1
